@@ -15,3 +15,4 @@ import TFV.Properties.Src.GPTrial
 #print axioms TFV.SelfConf.C14_invariant
 #print axioms TFV.SrcTie.C14_src_selfcga_adapt
 #print axioms TFV.SrcTie.C14_src_pdpga_offspring
+#print axioms TFV.SrcTie.C14_src_pdpgp_offspring
